@@ -212,6 +212,15 @@ def check_facade(rng, counters, classes):
     level = rng.choice([1, 2, 3, 4])
     rrv = rng.choice(['1.09', '1.12'])
     iso = pycdlib.PyCdlib()
+    old_facade = None
+    if rng.random() < 0.3:
+        # the object (and a facade taken from it) has had an earlier life at another interchange level
+        prev = rng.choice([l_ for l_ in (1, 2, 3, 4) if l_ != level])
+        iso.new(interchange_level=prev, rock_ridge=rrv)
+        old_facade = iso.get_rock_ridge_facade()
+        old_facade.add_fp(io.BytesIO(b'x'), 1, '/earlier.txt', 0o100644)
+        iso.close()
+        counters['facade_second_life'] = counters.get('facade_second_life', 0) + 1
     iso.new(interchange_level=level, rock_ridge=rrv)
     reopened = level == 4 and rng.random() < 0.4
     if reopened:
@@ -221,11 +230,17 @@ def check_facade(rng, counters, classes):
         iso.close()
         iso = pycdlib.PyCdlib()
         iso.open_fp(io.BytesIO(o0.getvalue()))
-    rr = iso.get_rock_ridge_facade()
+    rr = old_facade if (old_facade is not None and not reopened) else iso.get_rock_ridge_facade()
     names = []
     base = gen_name(rng)
     coll = rng.random() < 0.4
-    plain_names = ['readme%d.txt' % rng.randint(0, 99), 'notes.%d' % rng.randint(0, 9)] if level == 4 else []
+    # names that are legal as they are at the image's level
+    if level == 4:
+        plain_names = ['readme%d.txt' % rng.randint(0, 99), 'notes.%d' % rng.randint(0, 9)]
+    elif level == 1:
+        plain_names = ['README%d.TXT' % rng.randint(0, 99), 'A_%d.B' % rng.randint(0, 9)]
+    else:
+        plain_names = ['LONGFILENAME%d.TXT' % rng.randint(0, 99), 'NOTES_%d.BAK' % rng.randint(0, 9), 'A_NAME_OF_THIRTY_CHARACTERS.%03d' % rng.randint(0, 99)]
     for k in range(rng.randint(1, 4)):
         n = (base[:12] + '%d' % k + base[12:]) if coll else gen_name(rng)
         n = n.replace('/', '_')
@@ -253,14 +268,15 @@ def check_facade(rng, counters, classes):
                 vio.append({'key': 'facade:rr:wrong-entry', 'detail': 'level %d: reading %r returned %r' % (level, n, out.getvalue()[:40])})
         except Exception as e:
             vio.append({'key': 'facade:rr:read:%s' % type(e).__name__, 'detail': 'level %d get_file_from_iso_fp(rr_path=%r): %s' % (level, n, e)})
-    if level == 4:
-        # names that are legal as they are at level 4 must have become the identifier unchanged
+    if True:
+        # names that are legal as they are at the image's level must have become the identifier
+        # unchanged (apart from the appended version)
         try:
             idents = {c.file_identifier().decode('utf-8', 'replace') for c in iso.list_children(iso_path='/') if c is not None}
             for n in plain_names:
                 if n in added and n not in idents and n + ';1' not in idents:
-                    vio.append({'key': 'facade:rr:level4-identity:plain-name%s' % (':reopened' if reopened else ''),
-                                'detail': 'level 4%s: the identifier derived for %r is none of %s' % (' (image opened again)' if reopened else '', n, sorted(idents)[:6])})
+                    vio.append({'key': ('facade:rr:level4-identity:plain-name%s' % (':reopened' if reopened else '')) if level == 4 else 'facade:rr:identity:plain-name',
+                                'detail': 'level %d%s: the identifier derived for %r is none of %s' % (level, ' (image opened again)' if reopened else '', n, sorted(idents)[:6])})
         except Exception as e:
             vio.append({'key': 'facade:rr:list:%s' % type(e).__name__, 'detail': str(e)})
     try:
